@@ -15,7 +15,7 @@ from sa import sigdata, families, codec, tables
 from sa.interp import alpha, sl, Interp, Scenario, Sym, Const, Bytes, Enum, render, render_items, merge_consts, render_item
 from sa.loader import AnalysisError, dotted
 from sa.sigdata import enum_const
-from sa.templates import b2i_forms, resolve_lookup, display_keys, area_template, match, render_template, Pred, C, BYTE, SYM
+from sa.templates import unmodelled, b2i_forms, resolve_lookup, display_keys, area_template, match, render_template, Pred, C, BYTE, SYM
 
 noinline = lambda f: False  # noqa: E731
 
@@ -49,6 +49,29 @@ def split_args(t):
     if cur.strip():
         out.append(cur.strip())
     return out
+
+
+def positional(text, callee_text, params=()):
+    """Argument texts of the rendered call `callee_text(...)` in positional order: a starred tuple display is spliced
+    (f(*(a, b)) is f(a, b)) and keyword arguments are bound by the callee's parameter names.  None if `text` is another call."""
+    if not (text.startswith(callee_text + '(') and text.endswith(')')):
+        return None
+    out, kw = [], {}
+    for a in split_args(text[len(callee_text) + 1:-1]):
+        if a.startswith('*(') and a.endswith(')') and not a.startswith('**'):
+            out.extend(split_args(a[2:-1]))
+        elif a.startswith('*[') and a.endswith(']'):
+            out.extend(split_args(a[2:-1]))
+        elif re.match(r'^[A-Za-z_]\w*=[^=]', a):
+            k, v = a.split('=', 1)
+            kw[k] = v
+        else:
+            out.append(a)
+    for p in list(params)[len(out):]:
+        if p not in kw:
+            break
+        out.append(kw.pop(p))
+    return out + ['%s=%s' % kv for kv in sorted(kw.items())]
 
 
 def addnew_hashed(args, kw):
@@ -129,7 +152,7 @@ def check_type_selection(rep, prog):
         outs = Interp(prog, Scenario(args=args, inline=noinline, join_unknown=True)).run(fi)
         rep.analysed['paths'] += len(outs)
         news = _new_calls(outs, prog)
-        types = sorted(set(c[1][0] if c[1] else None for s, c in news), key=str)
+        types = sorted(set(resolve_lookup(c[1][0]) if c[1] else None for s, c in news), key=str)
         rep.check(types == [want], 'C02.1c', 'PGPKey.%s' % meth, '%s subject -> %s' % (label, types),
                   '%s of a %s must produce a %s signature' % (meth, label, want), where=fi.where, expected=want, found=types,
                   scenario='%s(%s)' % (meth, label))
@@ -162,7 +185,7 @@ def check_type_selection(rep, prog):
     for sp, kp, want in ((True, False, 'SignatureType.Subkey_Binding'), (False, True, 'SignatureType.PrimaryKey_Binding')):
         sc = Scenario(bind={'self.is_primary': Const(sp)}, args=at(fb, p1=S('key', ['PGPKey'], is_primary=kp)), inline=noinline)
         outs = Interp(prog, sc).run(fb)
-        types = sorted(set(c[1][0] for s, c in _new_calls(outs, prog) if c[1]))
+        types = sorted(set(resolve_lookup(c[1][0]) for s, c in _new_calls(outs, prog) if c[1]))
         rep.check(types == [want], 'C02.1c', 'PGPKey.bind', 'primary=%s binds primary=%s -> %s' % (sp, kp, types),
                   'a primary binding a subkey makes 0x18; a subkey binding its primary makes 0x19', where=fb.where, expected=want, found=types)
         for a in sorted(set(tuple(c[1]) for s, c in _new_calls(outs, prog))):
@@ -175,6 +198,15 @@ def check_type_selection(rep, prog):
 
 
 # ------------------------------------------------------------------------------------------------ C02.2
+def must_model(ok, construct, found):
+    """A mismatch on a value that carries residue of an unmodelled construct is not a verdict: exit 2."""
+    if not ok:
+        u = unmodelled(found)
+        if u is not None:
+            raise AnalysisError('%s: %r is outside what the byte-term interpreter models; cannot compare with the layout' % (construct, u))
+    return ok
+
+
 def halg_aliases(S):
     """Texts that denote the hash algorithm of the PGPSignature S (the getter is pinned to the packet field by C05.5)."""
     return ['%s.hash_algorithm' % S, '%s._signature.halg' % S]
@@ -230,9 +262,11 @@ def check_sign_flow(rep, prog):
         raise AnalysisError('PGPKey._sign: no returning path')
     # PrivKeyV4.sign delegates unchanged
     pv = prog.method('pgpy.packet.packets', 'PrivKeyV4', 'sign')
+    km_params = prog.method('pgpy.packet.fields', 'PrivKey', 'sign').params[1:]
     for s in Interp(prog, Scenario(args=at(pv, p1=Sym('sigdata'), p2=Sym('hash_alg')), inline=noinline)).run(pv):
-        rep.check(render(s.ret) == 'self.keymaterial.sign(sigdata, hash_alg)', 'C02.2', 'PrivKeyV4.sign', 'return %s' % render(s.ret),
-                  'the key packet hands (sigdata, hash_alg) unchanged to its key material', where=pv.where)
+        rep.check(positional(render(s.ret), 'self.keymaterial.sign', km_params) == ['sigdata', 'hash_alg'], 'C02.2', 'PrivKeyV4.sign',
+                  'return %s' % render(s.ret), 'the key packet hands (sigdata, hash_alg) unchanged to its key material', where=pv.where,
+                  expected='self.keymaterial.sign(sigdata, hash_alg)', found=render(s.ret))
     # key material sign methods: data and hash reach the library; EdDSA pre-hashes like its verify
     fields = prog.module('pgpy.packet.fields')
     for ci in fields.classes.values():
@@ -243,10 +277,9 @@ def check_sign_flow(rep, prog):
         for s in Interp(prog, Scenario(args=at(f, p1=Sym('sigdata'), p2=Sym('hash_alg')), inline=noinline)).run(f):
             r = render(s.ret)
             if ci.name == 'EdDSAPriv':
-                ok = r == 'self.__privkey__().sign(HASH(hash_alg;sigdata))'
+                ok = positional(r, 'self.__privkey__().sign') == ['HASH(hash_alg;sigdata)']
             else:
-                m = re.match(r'^self\.__privkey__\(\)\.sign\((.*)\)$', r)
-                a = split_args(m.group(1)) if m else []
+                a = positional(r, 'self.__privkey__().sign') or []
                 # first argument the data; the caller's hash object is an argument itself or the argument of the ECDSA scheme
                 ok = a[:1] == ['sigdata'] and any(x in ('hash_alg', 'ec.ECDSA(hash_alg)', 'ec.ECDSA(algorithm=hash_alg)', 'algorithm=hash_alg') for x in a[1:])
             rep.check(ok, 'C02.2', '%s.sign' % ci.name, 'return %s' % r, 'the library must sign the caller\'s data with the caller\'s hash',
@@ -268,6 +301,10 @@ def _all_self_stores(ci):
     return names
 
 
+class NotLiteral(Exception):
+    pass
+
+
 def _addnew_options(node, where):
     """(hashed literal or None, {option keyword: value node}) of an addnew call; options given as `**{literal dict}` are read too."""
     hashed = node.args[1] if len(node.args) > 1 else None
@@ -284,37 +321,99 @@ def _addnew_options(node, where):
                 else:
                     opts[k.value] = v
         else:
-            raise AnalysisError('%s: addnew options passed through a mapping that is not a literal' % where)
+            raise NotLiteral('%s: addnew options passed through a mapping that is not a literal' % where)
     return hashed, opts
+
+
+def _mapping_keys(text):
+    """Option names of a rendered `**` argument: a dict display with literal keys or dict(a=..., b=...)."""
+    if text.startswith('{'):
+        ks = display_keys(text)
+        if ks is not None and all(re.match(r"^'\w+'$", k) for k in ks):
+            return [k[1:-1] for k in ks]
+    m = re.match(r'^dict\((.*)\)$', text)
+    if m:
+        parts = split_args(m.group(1))
+        if all(re.match(r'^\w+=', x) for x in parts):
+            return [x.split('=', 1)[0] for x in parts]
+    return None
+
+
+def _toplevel_functions(prog):
+    for m in prog.modules.values():
+        for f in m.functions.values():
+            yield f
+        for c in m.classes.values():
+            for defs in c.all_defs.values():
+                for f in defs:
+                    yield f
+
+
+def _addnew_sites(prog, fn, cache):
+    """(name, hashed True/False/None, option names, where, text) for every addnew call of a top-level function.  A site whose
+    subpacket name or option mapping is not a literal (table-driven code, a loop over (name, field, value) triples, a dict held
+    in a local) is read off the interpreter's call log of the function instead - the loop over a literal table is unrolled there;
+    if the log does not make it literal either the site is outside what the rule understands (exit 2)."""
+    inlined = set(c for c, host in (getattr(prog, 'canon_inlined', None) or []))
+    dead = set()
+    for n in ast.walk(fn.node):
+        if isinstance(n, ast.FunctionDef) and n is not fn.node and n.name in inlined:
+            dead.update(id(x) for x in ast.walk(n))
+    for node in ast.walk(fn.node):
+        if not (isinstance(node, ast.Call) and isinstance(node.func, ast.Attribute) and node.func.attr == 'addnew'):
+            continue
+        w = '%s:%d' % (fn.module.relpath, node.lineno)
+        try:
+            if not node.args or not isinstance(node.args[0], ast.Constant) or not isinstance(node.args[0].value, str):
+                raise NotLiteral('%s: addnew with a non-literal subpacket name' % fn.qualname)
+            hashed, opts = _addnew_options(node, w)
+            hv = hashed.value if isinstance(hashed, ast.Constant) and isinstance(hashed.value, bool) else (False if hashed is None else None)
+            yield node.args[0].value, hv, sorted(opts), w, ast.unparse(node)[:120]
+            continue
+        except NotLiteral as ex:
+            why = str(ex)
+        if fn.qualname not in cache:
+            cache[fn.qualname] = Interp(prog, Scenario(inline=noinline, join_unknown=True)).run(fn)
+        seen = []
+        for s in cache[fn.qualname]:
+            for c in s.calls:
+                if c[0].endswith('.addnew') and c[3] == node.lineno and (c[1], c[2]) not in seen:
+                    seen.append((c[1], c[2]))
+        if not seen:
+            if id(node) in dead:
+                continue            # body of a closure the canonicaliser inlined: its copies are sites of their own
+            raise AnalysisError(why)
+        for args, kw in seen:
+            ks = _mapping_keys(kw['**']) if '**' in kw else []
+            if not args or not re.match(r"^'\w+'$", args[0]) or ks is None:
+                raise AnalysisError(why)
+            names = sorted(set(k for k in list(kw) + ks if k not in ('hashed', '**')))
+            hv = addnew_hashed(args, kw)
+            if 'hashed' in ks:
+                hv = None
+            yield args[0][1:-1], hv, names, w, 'addnew(%s)' % ', '.join(args + ['%s=%s' % kv for kv in kw.items()])[:120]
 
 
 def check_addnew(rep, prog):
     sigmod = prog.module('pgpy.packet.subpackets.signature')
     uamod = prog.module('pgpy.packet.subpackets.userattribute')
     n = 0
-    for fn in prog.all_functions():
-        for node in ast.walk(fn.node):
-            if not (isinstance(node, ast.Call) and isinstance(node.func, ast.Attribute) and node.func.attr == 'addnew'):
-                continue
-            if not node.args or not isinstance(node.args[0], ast.Constant) or not isinstance(node.args[0].value, str):
-                raise AnalysisError('%s: addnew with a non-literal subpacket name' % fn.qualname)
-            name = node.args[0].value
+    cache = {}
+    for fn in _toplevel_functions(prog):
+        for name, hashed, opts, w, text in _addnew_sites(prog, fn, cache):
             ci = sigmod.classes.get(name) or uamod.classes.get(name)
-            w = '%s:%d' % (fn.module.relpath, node.lineno)
             n += 1
             rep.analysed['call_sites'] += 1
             if ci is None:
                 rep.violation('C02.3', fn.qualname, "addnew('%s')" % name, 'no subpacket class of that name', where=w)
                 continue
             attrs = _all_self_stores(ci)
-            hashed, opts = _addnew_options(node, w)
             # everything a signing API states about the signature goes into the HASHED area (only the issuer key id and the
             # embedded back-signature are advisory / self-authenticating and live in the unhashed area)
             if fn.module.name == 'pgpy.pgp' and name not in ('Issuer', 'EmbeddedSignature', 'Image'):
-                is_hashed = isinstance(hashed, ast.Constant) and hashed.value is True
-                rep.check(is_hashed, 'C02.3', fn.qualname, "addnew('%s') hashed" % name,
+                rep.check(hashed is True, 'C02.3', fn.qualname, "addnew('%s') hashed" % name,
                           "subpacket %s is added outside the hashed area, so the signature does not cover it" % name, where=w,
-                          expected="addnew('%s', hashed=True, ...)" % name, found=ast.unparse(node)[:120], scenario=name)
+                          expected="addnew('%s', hashed=True, ...)" % name, found=text, scenario=name)
             for k in opts:
                 rep.check(k in attrs, 'C02.3', fn.qualname, "addnew('%s', %s=...)" % (name, k),
                           "subpacket class %s has no attribute '%s': addnew silently ignores the option" % (name, k), where=w,
@@ -343,6 +442,24 @@ def check_addnew(rep, prog):
                         isinstance(v.func.value, ast.Name) and v.func.value.id == kwname and v.args:
                     rep.check(loads.get(t.id, 0) > 0, 'C02.3', 'PGPKey.%s' % meth, 'option %s popped into %s' % (ast.unparse(v.args[0]), t.id),
                               'a documented option is read from the caller and then never used', where='%s:%d' % (f.module.relpath, node.lineno))
+    # RFC 4880 5.2.3.15: the class octet of a revocation key subpacket always carries 0x80; 0x40 marks it sensitive.  Decided where the
+    # interpreter folds the value to a number or an enum member under the two answers to "sensitive?" (other spellings: not decided)
+    fr = prog.method('pgpy.pgp', 'PGPKey', 'revoker')
+    kc = prog.cls('pgpy.constants', 'RevocationKeyClass').enum_members()
+    for sens in (True, False):
+        sc = Scenario(inline=noinline, join_unknown=True,
+                      oracle=lambda t, _s=sens: _s if re.search(r"\.pop\('sensitive'", t) and not t.startswith('not ') else None)
+        for s in Interp(prog, sc).run(fr):
+            for c in s.calls:
+                if not (c[0].endswith('.addnew') and c[1] and c[1][0] == "'RevocationKey'" and 'keyclass' in c[2]):
+                    continue
+                t = c[2]['keyclass']
+                v = int(t) if t.isdigit() else kc.get(t.split('.')[-1]) if t.startswith('RevocationKeyClass.') else None
+                if v is None:
+                    continue
+                rep.check(bool(v & 0x80) and bool(v & 0x40) == sens, 'C02.3', 'PGPKey.revoker', 'sensitive=%s -> class octet %#x' % (sens, v),
+                          'a revocation key class octet must have bit 0x80 set, and 0x40 exactly when the relationship is sensitive',
+                          where=fr.where, expected=hex(0xC0 if sens else 0x80), found=hex(v), scenario='sensitive=%s' % sens)
     # addnew itself: sets every keyword the object has, recomputes the length, files under the hashed key iff hashed
     fa = prog.method('pgpy.packet.fields', 'SubPackets', 'addnew')
     for hashed in (True, False):
@@ -523,6 +640,7 @@ def check_sig_codecs(rep, prog):
     # generic writer: MPIs in __mpis__ order
     sb = fields.classes['Signature'].methods['__bytearray__']
     for s in Interp(prog, Scenario(inline=noinline)).run(sb):
+        must_model(alpha(render(s.ret)) == 'EACH($1 in self;$1.to_mpibytes())', 'fields.Signature.__bytearray__', render(s.ret))
         rep.check(alpha(render(s.ret)) == 'EACH($1 in self;$1.to_mpibytes())', 'C02.4', 'fields.Signature.__bytearray__', render(s.ret),
                   'signature MPIs are written in field order', where=sb.where)
 
@@ -538,6 +656,7 @@ def check_sigv4_writer(rep, prog):
     for s in Interp(prog, Scenario()).run(wb):
         r = render(s.ret)
         ok, _, msg = match(s.ret.items, tpl) if isinstance(s.ret, Bytes) else (False, 0, 'not a byte string')
+        must_model(ok, 'SignatureV4.__bytearray__', r)
         rep.check(ok, 'C02.5', 'SignatureV4.__bytearray__', r,
                   'a V4 signature body is type, pk alg, hash alg, hashed+unhashed areas, left 16 bits, signature MPIs (RFC 4880 5.2.3)',
                   where=wb.where, expected=render_template(tpl), found='%s (%s)' % (r, msg))
@@ -552,6 +671,7 @@ def check_sigv4_writer(rep, prog):
         body = [BYTE('%s.header.version' % X)] + fields + [SYM('%s.subpackets.__hashbytearray__()' % X), C('0000')] + tail
         tpl = [C('88'), Pred('LEN(4; the body that follows)', lambda it, _rest=rest: it[0] == 'INT' and str(it[1]) == '4' and it[2] == _rest)] + body
         ok, _, msg = match(raw, tpl) if raw else (False, 0, 'not a byte string')
+        must_model(ok, 'SignatureV4.canonical_bytes', r)
         rep.check(ok, 'C02.5', 'SignatureV4.canonical_bytes', r[:100],
                   'a signature being signed/attested is 0x88, four-octet length, body with an empty unhashed area (RFC 4880 5.2.4)',
                   where=cb.where, expected=render_template(tpl), found='%s (%s)' % (r, msg))
@@ -569,6 +689,7 @@ def check_sigv4_writer(rep, prog):
         for s in Interp(prog, sc).run(f):
             r = render(s.ret)
             ok, _, msg = match(s.ret.items, tpl) if isinstance(s.ret, Bytes) else (False, 0, 'not a byte string')
+            must_model(ok, 'SubPackets.%s' % meth, r)
             rep.check(ok, 'C02.5', 'SubPackets.%s' % meth, r, '%s is its two-octet length then its subpackets in order' % what,
                       where=sp.where, expected=render_template(tpl), found='%s (%s)' % (r, msg))
 
